@@ -10,6 +10,37 @@ from ..e2 import *
 from ..runner import Result
 
 SP = "space.rs"
+import os
+from .. import verus
+SPEC20 = os.path.join(extract.VERIF, "contracts", "c20.vspec")
+LAYOUT20 = [("struct", "geometry.rs", "Sphere"), ("struct", "bounding_sphere.rs", "Welzl"), ("text", "text specs"),
+            ("impl", "impl Welzl", [("bounding_sphere.rs", "Welzl::bounding_sphere_recursive"), ("bounding_sphere.rs", "Welzl::bounding_sphere@BoundingSphereSolver")])]
+FNS20 = {
+    "bounding_sphere_recursive": "welzl.recursion_terminates_never_panics_restores_both_work_vectors_and_equals_the_functional_spec",
+    "bounding_sphere": "welzl.entry_point_is_the_recursion_on_all_points_with_empty_boundary",
+    "lemma_result_is_sphere_through_input_points": "welzl.lemma.result_is_the_sphere_through_at_most_four_of_the_input_points",
+    "lemma_two_or_more_points_never_yield_the_placeholder": "welzl.lemma.two_or_more_points_never_yield_the_zero_radius_placeholder",
+    "lemma_support_bounded": "welzl.lemma.support_is_bounded_by_the_number_of_points",
+    "witness_contracts_are_satisfiable": "welzl.witness.contracts_are_satisfiable",
+}
+UNIT20 = "bounding_sphere::Welzl::{bounding_sphere_recursive, bounding_sphere} (Verus, bodies verbatim)"
+
+
+def welzl_verus(tier):
+    """E1: the exact solver's recursion and entry point, bodies verbatim, against a functional spec (+ frame, no-panic, termination), and
+    two lemmas over that spec. A lost anchor / rejected file makes this unit undecided, never an alarm."""
+    try:
+        text, slices, spec = verus.assemble(SPEC20, LAYOUT20)
+        r = verus.run("c20", text, timeout=300 if tier == "quick" else 900, extra=("--triggers-mode", "silent"))
+        results = verus.results_per_function("C20", r, text, dict(FNS20), UNIT20)
+    except extract.Undecided as e:
+        text, slices = "", []
+        results = [Result("C20." + lbl, "E1", "undecided", 0.0, "verus", "unit not assembled: %s" % e, UNIT20) for lbl in FNS20.values()]
+    for x in results:
+        if x.name.endswith("witness.contracts_are_satisfiable"):
+            x.backend = "guard"
+            if x.status == "discharged": x.status = "vacuity-ok"
+    return results, slices, text
 XF = ("part.rs",)
 I0 = Const(0, "Int")
 R1 = Const(1, "Real")
@@ -211,6 +242,27 @@ def contains_obligations(prefix):
     return obs, [{"fn": u.label, "slice_sha": u.sha}]
 
 
+@isolated('from_boundary_points')
+def placeholder_obligations(prefix):
+    """Sphere::from_boundary_points: the two facts Welzl's recursion (E1 unit) takes as hypotheses about this callee -- fewer than two boundary
+    points give the zero-radius placeholder, and it panics exactly for more than four points (the E1 stub's `requires`)."""
+    u = Unit("geometry.rs", "Sphere::from_boundary_points")
+    pts = SymArr(lambda i: vec("pt")); pts.length = Var("n_points", "Int", "usize")
+    r, env, ctx, _ = u.run({"points": pts})
+    n = pts.length
+    dom = [Ge(n, I0)]
+    rp = lambda ob: _as_replay(sphere_probe(20260930, 12))
+    # the indexing obligations points[0..3] inside the arms are bounds checks (ctx.panics); the explicit `panic!` arm is one of them as well
+    no_panic = And(*[Implies(o.pc, o.cond) for o in ctx.panics]) if ctx.panics else TRUE
+    obs = [
+        Obligation(prefix + ".from_boundary_points.fewer_than_two_points_give_the_zero_radius_placeholder", ctx.assume + ctx.ok + dom + [Le(n, Const(1, "Int"))],
+                   Eq(r.f["radius"], R0), u.label, replay=rp),
+        Obligation(prefix + ".from_boundary_points.never_panics_for_at_most_four_points", ctx.assume + dom + [Le(n, Const(4, "Int"))], no_panic, u.label, replay=rp),
+        Obligation(prefix + ".from_boundary_points.requires_satisfiable", ctx.assume + ctx.ok + dom + [Le(n, Const(1, "Int"))], TRUE, u.label, expect_sat=True),
+    ]
+    return obs, [{"fn": u.label, "slice_sha": u.sha}]
+
+
 def _as_replay(res):
     n, bad = res
     return {"reproduced": bad is not None, "searched": n, "mismatch": bad}
@@ -330,10 +382,18 @@ def _min_sphere_radius(pts):
 
 def run(tier, seed):
     obs, fns = [], []
-    for f in (grid_obligations, binning_obligations, pruning_obligations, ring_bound_obligations, welzl_entry_obligations, contains_obligations):
+    for f in (grid_obligations, binning_obligations, pruning_obligations, ring_bound_obligations, welzl_entry_obligations, contains_obligations, placeholder_obligations):
         o, fn = f("C20"); obs += o; fns += fn
     smt.discharge_all(obs, tier)
     results = [runner.from_smt(o) for o in obs]
+    vres, vslices, vtext = welzl_verus(tier)
+    for x in vres:
+        if x.status == "refuted":
+            # Verus gives no counterexample: look for a failing input on the real solver
+            nb, badb = sphere_probe(20260930, 30)
+            x.replay = {"reproduced": badb is not None, "searched": nb, "mismatch": badb}
+            x.counterexample = badb
+    results += vres
     n1, bad1 = knn_probe(seed, 16 if tier == "quick" else 120)
     results.append(Result("C20.bounded.real_knn_equals_brute_force_k_nearest_in_order", "R", "discharged" if bad1 is None else "refuted", 0.0, "replay",
                           "" if bad1 is None else repr(bad1)[:3000], "space::Space::{new, add_parts, knn} (real crate, verif hook)",
@@ -345,13 +405,19 @@ def run(tier, seed):
                           bounded="%d solver runs on random point sets of 2..30 points, two scales, seed %d" % (n2, seed),
                           counterexample=bad2, replay={"reproduced": bad2 is not None, "mismatch": bad2}))
     meta = {
-        "level": "proof", "functions": fns + [{"fn": "space::Space::knn (bounded stand-in only)", "backend": "replay"}, {"fn": "bounding_sphere::{Welzl, Epos6} (bounded stand-in only)", "backend": "replay"}],
-        "assumptions": ["A-REAL for the E2 obligations: ceil / floor / division over the reals - the float evaluation of `rel / width * cdim` is not analysed",
+        "level": "proof", "functions": fns + vslices + [{"fn": "space::Space::knn (bounded stand-in only)", "backend": "replay"}, {"fn": "bounding_sphere::Epos6 and the containment / minimality of Welzl's result (bounded stand-in only)", "backend": "replay"}],
+        "assumptions": verus.scan_assumptions(vtext) + [
+                        "E1 (Welzl): Sphere::from_boundary_points and Sphere::contains enter as uninterpreted functions of their arguments (external_body stubs; "
+                        "from_boundary_points REQUIRES at most four points - its `_ => panic!` arm); slice::to_vec is an element-wise copy (assume_specification); "
+                        "the second lemma takes two facts about the callees as hypotheses: from_boundary_points of fewer than two points is the zero-radius placeholder "
+                        "(read off its match arms, not proved) and such a sphere contains no point (E2 obligation C20.contains.placeholder_sphere_of_radius_zero_contains_no_point)",
+                        "NOT proved for Welzl: that the result contains all points and is minimal (Welzl's lemma: geometry of minimal spheres) - bounded stand-in only",
+                        "A-REAL for the E2 obligations: ceil / floor / division over the reals - the float evaluation of `rel / width * cdim` is not analysed",
                         "u32 / i32 wrap-around in get_cid and get_r_ring is not modelled (grids with fewer than 2^32 cells)",
                         "NOT decided: the ring-by-ring search itself (BinaryHeap bookkeeping, the termination test, get_r_ring enumerating exactly the Chebyshev ring) - iterator / heap "
                         "code outside E1/E2; Welzl's minimality and Epos6's containment for all inputs (recursion over Vec, HashSet). Both are covered by the BOUNDED stand-ins only",
                         "Sphere::{from_two/three/four_points, extend, contains} carry their own contracts under C19"],
-        "trusted_base": ["vx (syn 2 dump)", "vlib/symex.py", "z3 4.8.12 / z3 5.1 / cvc5 1.0", "replay crate through verif_hooks::{space_knn, space_cells, bounding_sphere}"],
+        "trusted_base": ["Verus 0.2026.09.13 + Z3", "vlib/verus.py splice rules (W4: .expect -> vx_unwrap with precondition `is Some`)", "vx (syn 2 dump)", "vlib/symex.py", "z3 4.8.12 / z3 5.1 / cvc5 1.0", "replay crate through verif_hooks::{space_knn, space_cells, bounding_sphere}"],
         "explanation": "The mechanisms the grid search rests on, each as a contract on the real function: Space::new builds ceil(width/max) cells per axis of width width/cdim and cell "
                        "(i,j,k) spans anchor + (i,j,k)*c_width componentwise ('any box shape'); get_cid is the row-major index, None iff out of range; add_parts bins a particle "
                        "into the cell that contains it; Cell::min_distance_squared and min_distance_to_face are lower bounds, so pruning is sound. The search result and the "
